@@ -181,6 +181,9 @@ def run(ctx: Ctx):
                    construct=f"{sl.fi.qualname}:{cname_lit}:sibling:{mname}" + (":" + ",".join(sorted(miss)) if miss else ""))
     accumulators(ctx)
     accumulator_signs(ctx)
+    checker_clock(ctx)
+    padding_is_depot(ctx)
+    pctsp_all_visited_count(ctx)
     per_row_asserts(ctx)
     explained_asserts(ctx)
     gate(ctx)
@@ -432,6 +435,126 @@ def gate(ctx: Ctx):
                 ok, why = False, f"checker called with {a1}, _get_reward with {a2}"
     ctx.ob("C06.d", "RL4COEnvBase.get_reward:gate", ok, fi.loc, why or "if self.check_solution: check_solution_validity(td, actions); return _get_reward(td, actions)",
            construct="RL4COEnvBase.get_reward:gate")
+
+
+CLOCK_CELLS = {"CVRPTWEnv": "durations", "MTVRPEnv": "service_time"}
+
+
+def checker_clock(ctx: Ctx):
+    """C06.l the clock a checker simulates follows the same law as the env: clock' = max(clock + travel, window_start) + service,
+    restarted at the depot.  The waiting time (the max) must be carried into the departure: `arrival + service` lets a tour
+    that waits for one customer reach the next one in time on paper."""
+    for cname, svc in CLOCK_CELLS.items():
+        env = EnvA(ctx.repo, T.CHECK_ENVS[cname][0], cname)
+        sl = env.slot("check_solution_validity")
+        found = 0
+        for n in _all_nodes(sl):
+            if not (n.op == "loopvar" and n.id in vg.LOOP_BODY and _zero_init(n)):
+                continue
+            body = vg.LOOP_BODY[n.id]
+            if svc not in {y.args[1] for y in vg.walk(body, stop=lambda z: z.op == "loopvar") if y.op == "cell0"}:
+                continue                      # the clock is the loop-carried value that the service time is added to
+            found += 1
+            b = nf.strip(body)
+            if b.op == "store":           # the depot reset `clock[node == 0] = 0`
+                b = nf.strip(b.args[0])
+            p = nf.poly(b)
+            mons = list(p.terms.items())
+            ok, why = False, f"clock' = {p.show(3)[:160]}"
+            if len(mons) == 2 and all(c == 1 for _, c in mons) and all(len(m) == 1 and m[0][1] == 1 for m, _ in mons):
+                atoms = [nf.Poly.ATOMS[m[0][0]] for m, _ in mons]
+                mx = [a for a in atoms if nf._fn(a) in ("torch.max", "torch.maximum") or (a.op == "meth" and a.args[1] == "maximum")]
+                sv = [a for a in atoms if a not in mx]
+                if len(mx) == 1 and len(sv) == 1:
+                    ops_ = [x for x in (mx[0].args[1:] if mx[0].op == "call" else [mx[0].args[0]] + list(mx[0].args[2:])) if isinstance(x, vg.S) and x.op != "kw"]
+                    arr = [x for x in ops_ if any(y.op == "loopvar" and y.args[0] == n.args[0] for y in vg.walk(x))]
+                    st_ = [x for x in ops_ if "time_windows" in vg.cells_of(x) and x not in arr]
+                    sv_ok = vg.cells_of(sv[0]) == {svc}
+                    def own_cells(x):
+                        # cells read by this expression itself, not through the history of a loop-carried value
+                        return {y.args[1] for y in vg.walk(x, stop=lambda z: z.op == "loopvar") if y.op == "cell0"}
+                    arr_ok = len(arr) == 1 and svc not in own_cells(arr[0]) and "time_windows" not in own_cells(arr[0])
+                    ok = len(ops_) == 2 and len(st_) == 1 and arr_ok and sv_ok
+                    why = f"clock' = max(clock + travel: {arr_ok}, window start: {len(st_) == 1}) + {svc}: {sv_ok}"
+            ctx.ob("C06.l", f"{cname}.checker:clock-carries-the-wait", ok, sl.where, why, construct=f"{cname}.check_solution_validity:clock-formula")
+        if not found:
+            raise AnalysisError(f"{cname}.check_solution_validity: simulated clock not found")
+
+
+def padding_is_depot(ctx: Ctx):
+    """C06.m `each customer exactly once` on a sorted action sequence has two halves: the LAST n entries equal 1..n, and every
+    entry in front of them is the depot (0).  Without the second half a customer may repeat (the sort pushes the extra copy
+    into the head, where nothing looks)."""
+    for cname in ("CVRPEnv", "SVRPEnv", "MTVRPEnv"):
+        env = EnvA(ctx.repo, T.CHECK_ENVS[cname][0], cname)
+        sl = env.slot("check_solution_validity")
+        tails, heads = 0, 0
+        for l in assert_leaves(sl):
+            c = l.cmp()
+            if c is None or c[1] != "==0" or not l.conj:
+                continue
+            atoms = c[0].atoms()
+            subs = [a for a in atoms if a.op == "sub" and any(x.op == "meth" and x.args[1] == "sort" for x in vg.walk(a.args[0]))]
+            if not subs:
+                continue
+            idx = subs[0].args[1]
+            last = (idx.args if idx.op == "tuple" else (idx,))[-1]
+            if last.op != "slice":
+                continue
+            has_arange = any(nf._fn(a) == "torch.arange" for a in atoms)
+            if has_arange and not vg.is_none(last.args[0]) and vg.is_none(last.args[1]):
+                tails += 1                    # sorted[:, -n:] == arange(1, n + 1)
+            if not has_arange and len(atoms) == 1 and vg.is_none(last.args[0]) and not vg.is_none(last.args[1]) and c[0].const_term() == 0:
+                heads += 1                    # sorted[:, :-n] == 0
+        ctx.ob("C06.m", f"{cname}.checker:customers-once:head-is-depot", tails >= 1 and heads >= 1, sl.where,
+               f"sorted actions: tail equals 1..n ({tails}), head equals 0 ({heads})" if heads else
+               f"sorted actions: tail equals 1..n ({tails}) but the entries in front of it are not required to be the depot: a repeated customer is accepted",
+               construct=f"{cname}.check_solution_validity:customers-once:head")
+
+
+def pctsp_all_visited_count(ctx: Ctx):
+    """C06.n PCTSP / SPCTSP accept a tour below the prize requirement only if it visits EVERY customer: the number of non-depot
+    actions is compared with the number of customers of the instance -- resolved through _reset and the generator to `num_loc`
+    (sa/symshape.py), whatever tensor's shape it is read from."""
+    from .. import symshape
+    from ..envs import generator_slot
+    for cname in ("PCTSPEnv", "SPCTSPEnv"):
+        env = EnvA(ctx.repo, T.CHECK_ENVS[cname][0], cname)
+        sl = env.slot("check_solution_validity")
+        g, gsl = generator_slot(ctx.repo, env.cls)
+        rs = env.slot("_reset")
+        SS = symshape.SymShape([rs.td.cells, gsl.fr.ret.cells])
+        want = SS.dim(vg.mk("cell0", "td", "locs"), -2)
+        ok, why = False, "count comparison of the all-visited alternative not found"
+        if want is not None:
+            want = want - nf.Poly.const(1)        # locs of the state include the depot
+            for l in assert_leaves(sl):
+                c = l.cmp()
+                if c is None or c[1] != "==0":
+                    continue
+                P = c[0]
+                def resolved(atom):
+                    d_ = nf.dim_of(atom)
+                    if d_ is None or not isinstance(d_[1], int) or d_[1] >= 0:
+                        return None
+                    return SS.dim(d_[0], d_[1])
+                inst = nf.Poly.const(0)       # the part of P built from instance shapes and constants
+                n_count = 0
+                for m, c_ in P.terms.items():
+                    vals_ = [resolved(nf.Poly.ATOMS[a_]) for a_, _pw in m]
+                    if all(v is not None for v in vals_):
+                        term = nf.Poly.const(c_)
+                        for v in vals_:
+                            term = term * v
+                        inst = inst + term
+                    else:
+                        n_count += 1
+                if not n_count or inst == nf.Poly.const(0):
+                    continue
+                # P = count-part + inst == 0  <=>  count == -inst
+                ok = (-inst == want) or (inst == want)
+                why = f"non-depot actions are counted against {(-inst).show(2)} (or its negative); customers of the instance: {want.show(2)}"
+        ctx.ob("C06.n", f"{cname}.checker:all-visited-count", ok, sl.where, why, construct=f"{cname}.check_solution_validity:all-visited-count")
 
 
 def run_thorough(ctx: Ctx):
